@@ -92,7 +92,10 @@ def _through_driver(ctx, limit):
     ctx.add_tlc("MC_Report/C12 (categorical scores through the driver)", res)
     cases = [o for o in res.emitted if o["metric"] in ("ets", "hit", "n")]
     if limit and len(cases) > limit:
-        cases = random.Random(ctx.seed).sample(cases, limit)
+        # tables under -C with a climatology that holds zeros (pairs whose quotient is no number are no pairs of the table) are always among them
+        div = [o for o in cases if o.get("hasClim") and o.get("climType") == "divide" and o["axis"] in ("no", "time", "location", "leadtime", "threshold")]
+        rng = random.Random(ctx.seed)
+        cases = rng.sample(div, min(len(div), 12)) + rng.sample([o for o in cases if o not in div], limit)
     for n, divs in par.pmap(c12._check, [(o, [("csv", False, False, False)]) for o in cases], chunk=2):
         ctx.evaluations += n
         for site, detail, rep in divs:
